@@ -26,6 +26,19 @@ class SuggestModel:
                 self.fn = m
         if self.fn is None:
             raise AnalysisError('ErrorHandling.make_suggestion not found')
+        self.src = src
+        self.semantic = False
+        try:
+            self._structural(src)
+        except AnalysisError as e:
+            # the function is not written as one loop that fills one dictionary (helpers, comprehensions, early returns ...): the same facts are then read off
+            # the behaviour of the whole function, interpreted at the end of input (where it lists every candidate it would show)
+            self.semantic = True
+            self.structural_failure = str(e)
+            self.loop, self.tokvar = None, 'token_name'
+            self._semantic_thresholds()
+
+    def _structural(self, src):
         # the loop `for token_name in self.expected_tokens:`
         loop = None
         for n in ast.walk(self.fn):
@@ -67,6 +80,53 @@ class SuggestModel:
             raise AnalysisError('make_suggestion: the `1 < len(expected) < N` test was not found')
 
     PROBE = ('ZZZPROBE', 'zzzprobe')
+    PROBE2 = ('ZZZPROBF', 'zzzprobf')
+
+    def _whole(self, token_types, attrs):
+        """make_suggestion interpreted as a whole at the end of input (no offending token): the list it would show"""
+        from .interp import Interp, Obj, Raised, Env
+        it = Interp.for_file(self.src, FILE, {}, {'Token': lambda it_: Obj('Token')})
+        lexer = Obj('Lexer', **{k: v for k, v in attrs.items() if v is not None})
+        self_ = Obj('ErrorHandling', expected_tokens=list(token_types), lexer=lexer, tokens=[], bad_token=None,
+                    parser=Obj('Parser', state=0, statestack=[0], symstack=[], error_info=None))
+        try:
+            r = it.call_function(self.fn, [self_], {}, Env())
+        except Raised as r_:
+            raise AnalysisError(f'make_suggestion raises {r_.exc_name} at the end of input for the expected tokens {list(token_types)[:4]}')
+        if not isinstance(r, (list, tuple)):
+            raise AnalysisError('make_suggestion does not return a list at the end of input')
+        return list(r)
+
+    def _semantic_thresholds(self):
+        names = [f'ZZZK{chr(65 + i // 26)}{chr(65 + i % 26)}' for i in range(40)]
+        lens = {}
+        for k in (1, 2, 3, 5, 10, 15, 18, 19, 20, 21, 25, 30, 40):
+            lens[k] = len(self._whole(names[:k], {n: n.lower() for n in names[:k]}))
+        full = [k for k in sorted(lens) if k >= 2 and lens[k] == k]
+        empty = [k for k in sorted(lens) if k >= 2 and lens[k] == 0]
+        if lens.get(1) != 1 or not full or not empty or max(full) >= min(empty):
+            raise AnalysisError(f'make_suggestion: the listing thresholds are not of the form 1 < n < N ({lens}); structural reading failed with: {self.structural_failure}')
+        # exact boundary between the largest full and the smallest empty count
+        lo_k, hi_k = max(full), min(empty)
+        while hi_k - lo_k > 1:
+            mid = (lo_k + hi_k) // 2
+            n_ = len(self._whole(names[:mid], {n: n.lower() for n in names[:mid]}))
+            if n_ == mid:
+                lo_k = mid
+            else:
+                hi_k = mid
+        self.lo, self.hi = 1, hi_k
+
+    def _semantic_classify(self, token_name, pattern_attr):
+        p1, p2 = self.PROBE, self.PROBE2
+        attrs = {token_name: pattern_attr, p1[0]: p1[1], p2[0]: p2[1]}
+        r = self._whole([token_name, p1[0], p2[0]], attrs)
+        if p1[1] in r and p2[1] in r:
+            extra = [x for x in r if x not in (p1[1], p2[1])]
+            if len(extra) > 1:
+                raise AnalysisError(f'make_suggestion: one expected token {token_name} gives several display strings {extra}')
+            return ('add', extra[0]) if extra else ('skip', None)
+        return ('break', r[0]) if r else ('skip', None)
 
     def _head(self, token_types, attrs):
         """the display dictionary the first part of make_suggestion builds for these expected token types (in this order)"""
@@ -106,6 +166,8 @@ class SuggestModel:
         """-> ('break', display) | ('add', display) | ('skip', None): what one iteration of the loop does for a token
         type whose lexer attribute is `pattern` (a str for string rules, None/callable marker otherwise)."""
         from .interp import Obj
+        if self.semantic:
+            return self._semantic_classify(token_name, pattern if isinstance(pattern, (str, type(None))) else Obj('function'))
         left_early, d = self._with_probe([token_name], {token_name: pattern if isinstance(pattern, (str, type(None))) else Obj('function')})
         if len(d) > 1:
             raise AnalysisError(f'make_suggestion: one expected token {token_name} gives several display strings {sorted(d)}')
@@ -124,6 +186,16 @@ class SuggestModel:
                 attrs[t] = r.pattern
             elif r is not None:
                 attrs[t] = Obj('function')
+        if self.semantic:
+            # one token at a time, in the order the function itself takes them (it sorts them): a token that replaces the whole candidate set ends the collection
+            d = {}
+            for t in sorted(token_types):
+                kind, disp = self.classify(t, attrs.get(t) if isinstance(attrs.get(t), (str, type(None))) else _Callable())
+                if kind == 'break':
+                    return 'identifier-only', {disp: t}
+                if kind == 'add':
+                    d[disp] = t
+            return 'normal', d
         left_early, d = self._with_probe(list(token_types), attrs)
         return ('identifier-only' if left_early else 'normal'), d
 
